@@ -475,15 +475,37 @@ func (e *Engine) funcTypeSpec(t types.Type) *FuncSpec {
 	return spec
 }
 
+// maxAllocBytes is the largest allocation the Go runtime accepts on linux/amd64 (1 << heapAddrBits); makeslice panics above it.
+const maxAllocBytes = "281474976710656"
+
+var stdSizes = types.SizesFor("gc", "amd64")
+
+func sizeofType(t types.Type) int64 {
+	n := stdSizes.Sizeof(t)
+	if n < 1 {
+		n = 1
+	}
+	return n
+}
+
+// assumeObjectSize: an object that exists fits in the address space, so its element count times its element size is at most maxAllocBytes.
+func (s *State) assumeObjectSize(n string, elem int64) {
+	s.eng.assumptionsUsed["an existing slice or map with elements of size e has at most 2^48/e elements (linux/amd64 allocation limit)"] = true
+	s.assume(app("<=", app("*", n, fmt.Sprint(elem)), maxAllocBytes))
+}
+
 func (s *State) execBuiltin(b *ssa.Builtin, c *ssa.CallCommon, args []Val, where string) Val {
 	switch b.Name() {
 	case "len":
 		x := args[0]
 		switch u := x.T.Underlying().(type) {
 		case *types.Slice:
+			s.assumeObjectSize(x.Terms[0], sizeofType(u.Elem()))
 			return mkInt(x.Terms[0])
 		case *types.Map:
-			return mkInt(ite(eq(x.Terms[0], "0"), "0", s.mapCardIn(nil, u, x.Terms[0])))
+			n := ite(eq(x.Terms[0], "0"), "0", s.mapCardIn(nil, u, x.Terms[0]))
+			s.assumeObjectSize(n, sizeofType(u.Key())+sizeofType(u.Elem()))
+			return mkInt(n)
 		case *types.Basic:
 			return mkInt(app("str.len", x.Terms[0]))
 		case *types.Array:
